@@ -107,13 +107,15 @@ def registry():
                 M.CacheHistories("mem-faultfree", False, 40000, 600000),
                 M.CacheHistories("mem-faults", True, 20000, 300000),
                 M.PolicyWalks("policy-walk", 60000, 900000),
+                M.SetWalks("set-walk", 30000, 450000),
             ],
             design_ref="DESIGN.md §5, §7 C10",
             rule=(
                 "memsim: on every accepted access the way touched / the way displaced by an observed fill must be the "
                 "one an independent LRU (timestamps) / PLRU (explicit recursive tree) predicts, and get_repr() of every "
                 "set must equal the reference ranks / tree bits; plus a policy-level walk driving LRU(n)/PLRU(n) "
-                "directly for n<=16 (access, access-same-twice, victim-then-fill, query). Non-trivial iff the walk has "
+                "directly for n<=16 (access, access-same-twice, victim-then-fill, query) and a set-level walk driving "
+                "Cache.read_block / Cache.write_block directly on multi-set caches (write hits and fills without a preceding read). Non-trivial iff the walk has "
                 ">=3 steps and n>=2 / the history has an eviction; distinct = distinct event-log digest."
             ),
             components_real=MEM_REAL,
